@@ -452,21 +452,25 @@ fn main() {
     // come back (admission control / pooled state with a lost wake-up shows only here)
     let mut long_rounds = 0u64;
     if mode == "native" && !watchdog {
+        // no two equal words in a row: every search is ONE long VM run over the whole text
         let words = ["alpha", "beta", "gamma", "delta", "eps", "zeta", "eta", "theta"];
         let mut rng = Rng(seed ^ 0x10A6);
         let mut long_text = String::new();
+        let mut prev = usize::MAX;
         while long_text.len() < 5000 {
-            long_text.push_str(words[rng.below(words.len())]);
-            long_text.push(if rng.below(9) == 0 { '\n' } else { ' ' });
-            if rng.below(40) == 0 {
-                long_text.push_str("dup dup ");
+            let mut w = rng.below(words.len());
+            if w == prev {
+                w = (w + 1) % words.len();
             }
+            prev = w;
+            long_text.push_str(words[w]);
+            long_text.push(if rng.below(9) == 0 { '\n' } else { ' ' });
         }
         let long_text: Arc<String> = Arc::new(long_text);
         for (pi, pat) in [r"\b(\w+)\s+\1\b", r"(?<![a-z])(\w+)(?=\s+\1\b)"].iter().enumerate() {
             let Ok(re) = Regex::new(pat) else { continue };
             let re = Arc::new(re);
-            let want = call(&re, &long_text, 1);
+            let want = [call(&re, &long_text, 2), call(&re, &long_text, 0)];
             let n_rounds = (target / 40_000).clamp(6, 40);
             for round in 0..n_rounds {
                 let n = [16usize, 24, 32, 12][(round % 4) as usize];
@@ -480,10 +484,11 @@ fn main() {
                         let r: &Regex = own.as_ref().unwrap_or(&re);
                         barrier.wait();
                         let mut bad = None;
-                        for _ in 0..3 {
-                            match std::panic::catch_unwind(std::panic::AssertUnwindSafe(|| call(r, &text, 1))) {
-                                Ok(s) if s == want => {}
-                                Ok(_) => bad = Some(format!("LONG SEARCH: pattern {} thread {}: find_iter over the 5 kB text differs from the single-threaded run", pi, tid)),
+                        for k in 0..3usize {
+                            let api = [2usize, 0][k % 2];
+                            match std::panic::catch_unwind(std::panic::AssertUnwindSafe(|| call(r, &text, api))) {
+                                Ok(s) if s == want[k % 2] => {}
+                                Ok(_) => bad = Some(format!("LONG SEARCH: pattern {} thread {}: a search over the 5 kB text differs from the single-threaded run", pi, tid)),
                                 Err(_) => bad = Some(format!("LONG SEARCH: pattern {} thread {} panicked", pi, tid)),
                             }
                         }
